@@ -23,6 +23,7 @@ type SpecCtx struct {
 	nbind    int
 	noFn     bool
 	hyp      bool // evaluating a hypothesis (quantifiers get one version per indexed array)
+	pkgPath  string // package whose variables unqualified names denote (callee contracts); "" = the current function's
 }
 
 func (x *Exec) specCtx(st *State, cur, old *HeapView, names map[string]Value) *SpecCtx {
@@ -204,6 +205,14 @@ func (sc *SpecCtx) lookup(name string) Value {
 			fpkg = sc.x.eng.pkgs[sc.x.fx.pkgPath()] // instance of a generic function, closure inside one
 		}
 	}
+	if sc.pkgPath != "" {
+		// a callee's contract is read in the callee's package
+		if p := sc.x.eng.pkgs[sc.pkgPath]; p != nil {
+			if _, ok := p.Members[name]; ok {
+				fpkg = p
+			}
+		}
+	}
 	if fpkg != nil {
 		if g, ok := fpkg.Members[name]; ok {
 			if gv, isG := g.(interface{ Type() types.Type }); isG {
@@ -211,6 +220,30 @@ func (sc *SpecCtx) lookup(name string) Value {
 					a := Addr{Root: "0", Key: "global:" + typeKeyPkg(fpkg.Pkg) + "." + name, Ty: pt.Elem()}
 					return sc.st.loadAtIn(sc.cur, a)
 				}
+			}
+		}
+	}
+	// a callee's contract evaluated in a caller of another package: the package-level variable of
+	// the one loaded package that declares a variable of this name
+	{
+		var hit *ssa.Package
+		n := 0
+		for _, p := range sc.x.eng.pkgs {
+			if p == nil || p == fpkg {
+				continue
+			}
+			if g, ok := p.Members[name]; ok {
+				if _, isG := g.(*ssa.Global); isG {
+					hit = p
+					n++
+				}
+			}
+		}
+		if n == 1 {
+			g := hit.Members[name].(*ssa.Global)
+			if pt, isP := g.Type().Underlying().(*types.Pointer); isP {
+				a := Addr{Root: "0", Key: "global:" + typeKeyPkg(hit.Pkg) + "." + name, Ty: pt.Elem()}
+				return sc.st.loadAtIn(sc.cur, a)
 			}
 		}
 	}
